@@ -33,17 +33,20 @@ def rand_molecule(rng, big=False):
     else:
         n = rng.choice([1, 1, 2, 2, 3, 3, 4, 4, 5, 5, 6, 6, 7, 8, 9, 10, 11, 12, 13, 14])
     atoms = []
+    # "rich" molecules carry many labels, so that several labels meet on one atom
+    rich = rng.random() < 0.3
+    p_mass, p_rad, p_chg = (0.35, 0.35, 0.3) if rich else (0.06, 0.06, 0.08)
     for i in range(n):
         sym = rng.choice(COMMON) if rng.random() < 0.85 else rng.choice(ELEMENTS)
         a = {"sym": sym, "x": round(rng.uniform(-9, 9), 4) + i * 0.0001, "y": round(rng.uniform(-9, 9), 4), "z": round(rng.uniform(-3, 3), 4)}
         u = rng.random()
-        if u < 0.06:
+        if u < p_mass:
             a["mass"] = rng.randint(1, 260)
-        elif u < 0.10 and sym == "H":
+        elif u < p_mass + 0.04 and sym == "H":
             a["sym"] = rng.choice(["D", "T"])
-        if rng.random() < 0.06:
+        if rng.random() < p_rad:
             a["rad"] = rng.randint(1, 3)
-        if rng.random() < 0.08:
+        if rng.random() < p_chg:
             a["chg"] = rng.choice([-3, -2, -1, 1, 2, 3])
         atoms.append(a)
     ncomp = 1 if n < 3 or rng.random() < 0.75 else rng.randint(2, min(3, n))
@@ -63,6 +66,21 @@ def rand_molecule(rng, big=False):
     rng.shuffle(blist)
     blist = [((a, b) if rng.random() < 0.5 else (b, a), t) for (a, b), t in blist]
     return {"atoms": atoms, "bonds": blist}
+
+
+def redraw(mol, rng):
+    """Same atoms, elements, isotopes, radicals and bonds in the same order; other
+    coordinates, bond orders and charges (a resonance/conformer style redrawing)."""
+    atoms = []
+    for a in mol["atoms"]:
+        b = {k: v for k, v in a.items() if k != "chg"}
+        b["y"] = round(rng.uniform(-9, 9), 4)
+        b["z"] = round(rng.uniform(-3, 3), 4)
+        if rng.random() < 0.3:
+            b["chg"] = rng.choice([-3, -2, -1, 1, 2, 3])
+        atoms.append(b)
+    bonds = [(ab, rng.choice([1, 2, 3, 4])) for ab, t in mol["bonds"]]
+    return {"atoms": atoms, "bonds": bonds}
 
 
 def render_v3000(mol, rng=None, name="sim"):
@@ -116,6 +134,43 @@ def render_v2000(mol, rng, name="sim"):
     prop("ISO", [(i, a["mass"]) for i, a in enumerate(mol["atoms"], 1) if "mass" in a])
     L.append("M  END")
     return "\n".join(L) + "\n"
+
+
+_V3ATOM = re.compile(r"^(M  V30 \d+ )([A-Za-z]{1,2})( .*)$")
+
+
+def same_size_variant(text, rng):
+    """Another molecule in a file of exactly the same byte length: the element
+    symbols of two atom lines are exchanged (equal symbol width, different
+    element).  None if the text offers no such pair."""
+    lines = text.split("\n")
+    cand = []
+    if len(lines) > 3 and "V3000" in lines[3]:
+        for i, l in enumerate(lines):
+            m = _V3ATOM.match(l)
+            if m:
+                cand.append((i, m.group(2)))
+    elif len(lines) > 3 and "V2000" in lines[3]:
+        try:
+            na = int(lines[3][0:3])
+        except ValueError:
+            return None
+        for i in range(4, min(4 + na, len(lines))):
+            if len(lines[i]) >= 34:
+                cand.append((i, lines[i][31:34]))
+    pairs = [(a, b) for a in cand for b in cand if a[0] < b[0] and a[1] != b[1] and len(a[1]) == len(b[1])]
+    if not pairs:
+        return None
+    (i, si), (j, sj) = rng.choice(pairs)
+    if "V3000" in lines[3]:
+        mi, mj = _V3ATOM.match(lines[i]), _V3ATOM.match(lines[j])
+        lines[i] = mi.group(1) + sj + mi.group(3)
+        lines[j] = mj.group(1) + si + mj.group(3)
+    else:
+        lines[i] = lines[i][:31] + sj + lines[i][34:]
+        lines[j] = lines[j][:31] + si + lines[j][34:]
+    out = "\n".join(lines)
+    return out if len(out) == len(text) and out != text else None
 
 
 def malformed_molfiles(rng, valid_texts):
@@ -240,6 +295,42 @@ def respell(s, rng):
     return out
 
 
+def semantic_reject(s, rng):
+    """A syntactically valid sentence that the listener / graph builder rejects:
+    self-loop, attribute set twice, index beyond the last atom."""
+    parts = s.split("/")
+    if len(parts) < 2:
+        return s + "/(1-1)"
+    tuples = _TUPLE.findall(parts[1])
+    n = max([int(x) for t in tuples for x in t] + [1])
+    k = rng.randrange(4)
+    if k == 0:
+        i = rng.randint(1, n)
+        tuples.insert(rng.randrange(len(tuples) + 1), (str(i), str(i)))
+        parts[1] = "".join(f"({a}-{b})" for a, b in tuples)
+    elif k == 1:
+        i = rng.randint(1, n)
+        key = rng.choice(["mass", "rad"])
+        extra = f"({i}:{key}={rng.randint(1, 3)})({i}:{key}={rng.randint(1, 9)})"
+        if len(parts) > 2:
+            parts[2] += extra
+        else:
+            parts.append(extra)
+    elif k == 2:
+        i = rng.randint(1, n)
+        key = rng.choice(["mass", "rad"])
+        extra = f"({i}:{key}={rng.randint(1, 3)},{key}={rng.randint(1, 9)})"
+        if len(parts) > 2:
+            parts[2] = extra + parts[2]
+        else:
+            parts.append(extra)
+    else:
+        big = n + rng.choice([1, 1, 2, 50, 1000])
+        tuples.append((str(rng.randint(1, n)), str(big)))
+        parts[1] = "".join(f"({a}-{b})" for a, b in tuples)
+    return "/".join(parts)
+
+
 def mutate_string(s, rng):
     toks = _TOKEN.findall(s)
     alphabet = ["(", ")", "-", "/", ":", ",", "=", "mass", "rad", "0", "1", "2", "10", "C", "H", "Cl", "Cs", "N", "O", "He", " ", "x", "07"]
@@ -273,6 +364,9 @@ class Pool:
         self.str_respelled = []
         self.str_mutated = []
         self.str_boundary = []
+        self.str_semantic = []
+        self.redrawn = {}  # molfile id -> id of a redrawing of the same skeleton
+        self.samesize = {}  # molfile id -> id of another molecule in a file of the same byte length
         self.meta = {}
 
     def add(self, prefix, text, bucket, **meta):
@@ -315,10 +409,18 @@ def build_pool_molfiles(master, repo, n_corpus, n_random, n_big, n_bad):
         pool.add("T", t, pool.mol_valid, src=rel)
     for k in range(n_random + n_big):
         mol = rand_molecule(rng, big=(k >= n_random))
-        if rng.random() < 0.35 and len(mol["atoms"]) <= 999:
-            pool.add("T", render_v2000(mol, rng, f"sim{k}"), pool.mol_valid, src="random-v2000")
-        else:
-            pool.add("T", render_v3000(mol, rng, f"sim{k}"), pool.mol_valid, src="random-v3000")
+        v2 = rng.random() < 0.35 and len(mol["atoms"]) <= 999
+        render = (lambda m, nm: render_v2000(m, rng, nm)) if v2 else (lambda m, nm: render_v3000(m, rng, nm))
+        tid = pool.add("T", render(mol, f"sim{k}"), pool.mol_valid, src="random-v2000" if v2 else "random-v3000")
+        if rng.random() < 0.3:
+            # a redrawing of the same skeleton in the same atom order
+            rid = pool.add("T", render(redraw(mol, rng), f"sim{k}r"), pool.mol_valid, src="redrawn", of=tid)
+            pool.redrawn[tid] = rid
+    for tid in list(pool.mol_valid):
+        if rng.random() < 0.5:
+            v = same_size_variant(pool.texts[tid], rng)
+            if v is not None:
+                pool.samesize[tid] = pool.add("T", v, pool.mol_valid, src="same-size-variant", of=tid)
     valid = [pool.texts[t] for t in pool.mol_valid]
     bad = malformed_molfiles(rng, [rng.choice(valid) for _ in range(max(0, n_bad - 3))]) if valid else malformed_molfiles(rng, [])
     for t in bad[:n_bad]:
@@ -341,6 +443,8 @@ def build_pool_strings(pool, master, pipeline_strings, n_respell, n_mutate):
         for _ in range(rng.choice([1, 1, 1, 2, 3])):
             s = mutate_string(s, rng)
         pool.add("S", s, pool.str_mutated, src="mutated")
+    for _ in range(max(8, n_mutate // 2)):
+        pool.add("S", semantic_reject(rng.choice(base), rng), pool.str_semantic, src="semantic-reject")
     for s in BOUNDARY_STRINGS:
         pool.add("S", s, pool.str_boundary, src="boundary")
     return pool
@@ -408,9 +512,10 @@ def _loguniform(rng, lo, hi):
 class _ClientGen:
     """Builds the op list of one client, tracking live registers statically."""
 
-    def __init__(self, rng, prop, cls, mols, strs, bad_mols, files, multi):
+    def __init__(self, rng, prop, cls, mols, strs, bad_mols, files, multi, rewrites=None):
         self.rng, self.prop, self.cls = rng, prop, cls
         self.mols, self.strs, self.bad_mols, self.files = mols, strs, bad_mols, files
+        self.rewrites = rewrites or {}  # private path -> list of text ids that may be written to it
         self.multi = multi
         self.ops = []
         self.live = {"graph": [], "canon": [], "string": [], "moltext": []}
@@ -451,6 +556,17 @@ class _ClientGen:
         if u < 0.40 and self.mols:
             return self._add({"op": "read", "text": r.choice(self.mols)}, "graph")
         if u < 0.50 and self.files:
+            if self.rewrites and r.random() < 0.6:
+                path = r.choice(sorted(self.rewrites))
+                u2 = r.random()
+                if u2 < 0.5:
+                    # read, overwrite in place (same byte length), read again
+                    self._add({"op": "read_file", "path": path}, "graph")
+                    if r.random() < 0.3:
+                        self.step()
+                if u2 < 0.75:
+                    self._add({"op": "fs_write", "path": path, "text": r.choice(self.rewrites[path])})
+                return self._add({"op": "read_file", "path": path}, "graph")
             return self._add({"op": "read_file", "path": r.choice(self.files)}, "graph")
         if u < 0.56 and self.bad_mols:
             return self._add({"op": "read", "text": r.choice(self.bad_mols)}, "graph")
@@ -467,11 +583,11 @@ class _ClientGen:
         if not g:
             return self.source()
         if prop == "C14":
-            w = [("source", 22), ("canon", 14), ("serialize", 14), ("parse_reg", 8), ("write", 10), ("read_reg", 5), ("permute", 4), ("again", 8), ("mutate", 3), ("drop", 3), ("gc", 1), ("rng", 4), ("clock", 4)]
+            w = [("source", 22), ("canon", 14), ("serialize", 14), ("parse_reg", 8), ("write", 10), ("read_reg", 5), ("permute", 4), ("again", 8), ("mutate", 3), ("drop", 3), ("gc", 1), ("rng", 4), ("clock", 4), ("edit", 5)]
         elif prop == "C12":
-            w = [("source", 12), ("canon", 22), ("serialize", 22), ("parse_reg", 2), ("write", 3), ("read_reg", 1), ("permute", 3), ("again", 18), ("mutate", 9), ("drop", 4), ("gc", 2), ("rng", 1), ("clock", 1)]
+            w = [("source", 12), ("canon", 22), ("serialize", 22), ("parse_reg", 2), ("write", 3), ("read_reg", 1), ("permute", 3), ("again", 18), ("mutate", 9), ("drop", 4), ("gc", 2), ("rng", 1), ("clock", 1), ("edit", 12)]
         else:
-            w = [("source", 12), ("canon", 4), ("serialize", 2), ("parse_reg", 1), ("write", 1), ("read_reg", 0), ("permute", 38), ("again", 16), ("mutate", 9), ("drop", 3), ("gc", 2), ("rng", 12), ("clock", 0)]
+            w = [("source", 12), ("canon", 4), ("serialize", 2), ("parse_reg", 1), ("write", 1), ("read_reg", 0), ("permute", 38), ("again", 16), ("mutate", 9), ("drop", 3), ("gc", 2), ("rng", 12), ("clock", 0), ("edit", 6)]
         k = _wchoice(r, w)
         if k == "source":
             return self.source()
@@ -515,6 +631,13 @@ class _ClientGen:
                 rt = "moltext"
             i = self._add({"op": "again", "of": j}, rt, canon=(b["op"] == "canon"))
             return i
+        if k == "edit":
+            j = r.choice(g)
+            inplace = r.random() < 0.4
+            was_canon = j in self.live["canon"]
+            if inplace:
+                self._retire(j)
+            return self._add({"op": "edit", "arg": j, "how": r.choice(["chg", "bond", "coords", "all"]), "x": r.randrange(1000), "inplace": inplace}, "graph", canon=was_canon)
         if k == "mutate":
             j = r.choice(g)
             self._retire(j)
@@ -561,14 +684,19 @@ def gen_spec(run_seed, prop, pool, hashseeds, knobs=None):
     nthreads = rng.choice([2, 2, 2, 3, 3, 4]) if multi else 1
     hashseed = hashseeds[rng.randrange(len(hashseeds))]
     valid_strs = pool.str_pipeline + pool.str_respelled
-    all_strs = valid_strs + pool.str_mutated + pool.str_boundary
+    all_strs = valid_strs + pool.str_mutated + pool.str_boundary + pool.str_semantic
     k_m = rng.randint(1, 5)
     k_s = rng.randint(1, 6)
     mols = rng.sample(pool.mol_valid, min(k_m, len(pool.mol_valid)))
+    # a molecule and its redrawing (same skeleton and atom order) often meet in one run
+    for t in list(mols):
+        r = pool.redrawn.get(t)
+        if r and r not in mols and rng.random() < 0.7:
+            mols.append(r)
     strs = []
     for _ in range(k_s):
         u = rng.random()
-        src = valid_strs if u < 0.55 else (pool.str_mutated if u < 0.8 else pool.str_boundary)
+        src = valid_strs if u < 0.5 else (pool.str_mutated if u < 0.7 else (pool.str_semantic if u < 0.85 else pool.str_boundary))
         if src:
             strs.append(rng.choice(src))
     if prop in ("C12", "C16"):
@@ -582,8 +710,18 @@ def gen_spec(run_seed, prop, pool, hashseeds, knobs=None):
         files["/sim/noext"] = mols[0]
     fpaths = [p for p in files if p.endswith(".mol")]
 
-    def client(nops, own_rng):
-        cg = _ClientGen(own_rng, prop, cls, mols, strs, bad, fpaths, multi)
+    def client(nops, own_rng, t=0):
+        # files only this client rewrites (same byte length, other molecule)
+        rewrites = {}
+        for m in mols:
+            v = pool.samesize.get(m)
+            if v:
+                path = f"/sim/c{t}-{m}.mol"
+                files[path] = m
+                rewrites[path] = [v, m, v]
+                if pool.redrawn.get(m):
+                    rewrites[path].append(pool.redrawn[m])
+        cg = _ClientGen(own_rng, prop, cls, mols, strs, bad, fpaths, multi, rewrites)
         while len(cg.ops) < nops:
             cg.step()
         return cg.ops
@@ -592,7 +730,7 @@ def gen_spec(run_seed, prop, pool, hashseeds, knobs=None):
     threads = []
     storm = multi and rng.random() < 0.3 and strs
     for t in range(nthreads):
-        ops = client(rng.randint(1, max_ops), Random(H(run_seed, "client", t)))
+        ops = client(rng.randint(1, max_ops), Random(H(run_seed, "client", t)), t)
         if storm:
             # all clients start by parsing the same strings (cold-cache contention)
             head = [{"op": "parse", "text": s} for s in strs[: rng.randint(1, 2)]]
@@ -633,6 +771,7 @@ def gen_spec(run_seed, prop, pool, hashseeds, knobs=None):
         "gc_auto": rng.choice([None, None, None, [700, 10, 10], [100, 5, 5], [20, 2, 2]]),
         "stall": rng.randrange(nthreads) if (cls == "D" and rng.random() < 0.3) else None,
         "clock_start": rng.choice(_CLOCKS) if rng.random() < 0.5 else float(rng.randrange(0, 4102444800)),
+        "fs_mtime_gran": rng.choice([1e-9, 1e-9, 1e-6, 1e-3, 1.0, 1.0, 2.0]),
         "texts": {t: pool.texts[t] for t in sorted(used)},
         "files": files,
         "warmup": warm,
